@@ -193,6 +193,60 @@ pub fn build_esds_at(tn: u32, region: usize, inner: bool) -> Vec<u8> {
     file
 }
 
+/// table variant: one track whose sample table box holds K copies of one table box (stss, stts, ctts,
+/// stsc, stco, co64, stsz) that declares only its header and count (no room for entries) and a count
+/// worth the L bytes that follow the movie header.  A reader that checks the count against the box
+/// rejects the first copy; one that does not reads L bytes per copy and is seeked back each time.
+pub fn build_tables(kind: &str, k: u32, region: usize) -> Vec<u8> {
+    let (tag, esize, extra): (&[u8; 4], usize, usize) = match kind {
+        "tbl-stss" => (b"stss", 4, 0),
+        "tbl-stts" => (b"stts", 8, 0),
+        "tbl-ctts" => (b"ctts", 8, 0),
+        "tbl-stsc" => (b"stsc", 12, 0),
+        "tbl-stco" => (b"stco", 4, 0),
+        "tbl-co64" => (b"co64", 8, 0),
+        _ => (b"stsz", 4, 4), // sample_size word (0 = per-sample sizes) before the count
+    };
+    let mut out = ser(&FtypBox { major_brand: FourCC::from(*b"isom"), minor_version: 0, compatible_brands: vec![] });
+    let mut mvhd = MvhdBox::default();
+    mvhd.timescale = 1000;
+    mvhd.next_track_id = 2;
+    let mut tkhd = TkhdBox::default();
+    tkhd.track_id = 1;
+    let mut mdhd = MdhdBox::default();
+    mdhd.timescale = 1000;
+    let mut hdlr = HdlrBox::default();
+    hdlr.handler_type = FourCC::from(*b"vide");
+    let mut stsd = StsdBox::default();
+    let mut hev1 = Hev1Box::default();
+    hev1.hvcc.configuration_version = 1;
+    stsd.hev1 = Some(hev1);
+    let count = ((region.saturating_sub(64 + 24 * k as usize)) / esize) as u32;
+    let mut copy = vec![0u8; 4 + extra];
+    copy.extend_from_slice(&count.to_be_bytes());
+    let mut stbl = ser(&stsd);
+    stbl.extend_from_slice(&ser(&SttsBox::default()));
+    stbl.extend_from_slice(&ser(&StscBox::default()));
+    stbl.extend_from_slice(&ser(&StszBox::default()));
+    stbl.extend_from_slice(&ser(&StcoBox::default()));
+    for _ in 0..k {
+        stbl.extend_from_slice(&bx(tag, &copy));
+    }
+    let mut minf = ser(&VmhdBox::default());
+    minf.extend_from_slice(&ser(&DinfBox::default()));
+    minf.extend_from_slice(&bx(b"stbl", &stbl));
+    let mut mdia = ser(&mdhd);
+    mdia.extend_from_slice(&ser(&hdlr));
+    mdia.extend_from_slice(&bx(b"minf", &minf));
+    let mut trak = ser(&tkhd);
+    trak.extend_from_slice(&bx(b"mdia", &mdia));
+    let mut moov = ser(&mvhd);
+    moov.extend_from_slice(&bx(b"trak", &trak));
+    out.extend_from_slice(&bx(b"moov", &moov));
+    out.extend_from_slice(&bx(b"free", &vec![0u8; region]));
+    out
+}
+
 /// fragment-walk variant: one movie fragment with K track fragments of the same track whose runs are
 /// empty, followed by one run of M samples.  Finding the offset of the last sample adds up the M
 /// sizes before it; if every size lookup searches the K track fragments again, one call costs
@@ -234,6 +288,7 @@ pub fn run(tn: u32, k: u32, kind: &str, id: u64, out: &mut Out) {
         "esds" => build_esds(tn, k as usize * 1024),
         "esds4" => build_esds_at(tn, k as usize * 1024, true),
         "fragwalk" => build_fragwalk(tn, k),
+        x if x.starts_with("tbl-") => build_tables(x, tn, k as usize * 1024),
         _ => build(tn, k, kind == "avc"),
     };
     out.ev(json!({"e":"reset","id":format!("amplify-{}-{}-{}", kind, tn, k),"kind":"amplification","len":file.len(),"mode":"open"}));
